@@ -179,7 +179,11 @@ class C19(Check):
                     ei = exc_info(res["exc"])
                     c = {"err": ei.get("cat"), "cls": ei.get("cls"), "path": w.rel(ei["path"]) if ei.get("path") else None, "line": ei.get("line")}
                 canons.append(digest(c))
-                out.obs.append([i, canons[-1], "ok" if res["ok"] else classify_exc(res["exc"])])
+                # which of several malformed names is reported first depends on set iteration order inside the reader;
+                # any of them is an allowed outcome, so the event log records the class only
+                bn = {e["path"] for b in scn["edits"][:i] for e in b if e.get("kind") == "badname"} if i else set()
+                is_bn = (not res["ok"]) and c.get("path") is not None and (c["path"] in bn or any(c["path"] == p0.rsplit("/", 1)[0] for p0 in bn))
+                out.obs.append([i, "badname" if is_bn else canons[-1], "ok" if res["ok"] else classify_exc(res["exc"])])
                 out.stats["reads"] += 1
                 # print handler must never see an out-of-closure directive
                 for (pp, ln, txt) in res["prints"]:
